@@ -240,6 +240,28 @@ impl CachedConstant {
     }
 }
 
+/// The decision tree to run for a list of exactly `length` elements: the fixed-length
+/// case of that length if there is one, otherwise the tail case with the longest
+/// prefix that still fits (its matrix holds every clause with a shorter prefix too).
+fn list_case_for_length<'t>(
+    cases: &'t [(CaseTest, DecisionTree<'t>)],
+    tail_cases: &'t [(CaseTest, DecisionTree<'t>)],
+    length: usize,
+) -> Option<&'t (CaseTest, DecisionTree<'t>)> {
+    cases
+        .iter()
+        .find(|x| matches!(x.0, CaseTest::List(i) if i == length))
+        .or_else(|| {
+            tail_cases
+                .iter()
+                .filter(|x| matches!(x.0, CaseTest::ListWithTail(i) if i <= length))
+                .max_by_key(|x| match x.0 {
+                    CaseTest::ListWithTail(i) => i,
+                    _ => unreachable!(),
+                })
+        })
+}
+
 impl<'a> CodeGenerator<'a> {
     pub fn data_types(&self) -> &IndexMap<&'a DataTypeKey, &'a TypedDataType> {
         &self.data_types
@@ -2752,7 +2774,15 @@ impl<'a> CodeGenerator<'a> {
                 let last_pattern = if tail_cases.is_empty() {
                     *default.as_ref().unwrap().clone()
                 } else {
-                    let tree = tail_cases.last().unwrap();
+                    // Lists longer than every fixed-length case: the tail case with the
+                    // longest prefix is the one holding every applicable clause.
+                    let tree = tail_cases
+                        .iter()
+                        .max_by_key(|(case, _)| match case {
+                            CaseTest::ListWithTail(i) => *i,
+                            _ => unreachable!(),
+                        })
+                        .unwrap();
 
                     tree.1.clone()
                 };
@@ -2776,14 +2806,7 @@ impl<'a> CodeGenerator<'a> {
                     (builtins_for_pattern, last_pattern),
                     |(mut builtins_for_pattern, acc), list_item| match list_item {
                         itertools::Position::First(index) | itertools::Position::Only(index) => {
-                            let (_, tree) = cases
-                                .iter()
-                                .chain(tail_cases.iter())
-                                .find(|x| match x.0 {
-                                    CaseTest::List(i) => i == index,
-                                    CaseTest::ListWithTail(i) => i <= index,
-                                    _ => unreachable!(),
-                                })
+                            let (_, tree) = list_case_for_length(&cases, &tail_cases, index)
                                 .cloned()
                                 .unwrap_or_else(|| {
                                     (CaseTest::Wild, *default.as_ref().unwrap().clone())
@@ -2818,14 +2841,7 @@ impl<'a> CodeGenerator<'a> {
                         }
 
                         itertools::Position::Middle(index) | itertools::Position::Last(index) => {
-                            let (_, tree) = cases
-                                .iter()
-                                .chain(tail_cases.iter())
-                                .find(|x| match x.0 {
-                                    CaseTest::List(i) => i == index,
-                                    CaseTest::ListWithTail(i) => i <= index,
-                                    _ => unreachable!(),
-                                })
+                            let (_, tree) = list_case_for_length(&cases, &tail_cases, index)
                                 .cloned()
                                 .unwrap_or_else(|| {
                                     (CaseTest::Wild, *default.as_ref().unwrap().clone())
